@@ -218,7 +218,15 @@ impl Check for C10 {
             if shard == 0 {
                 // large outputs (the TOML trial of a reader stops at 2 MiB by design, a
                 // slice has no such limit) and strings with characters TOML writes raw
+                let multibyte = |k: usize| -> String {
+                    let chars = ['\u{e9}', '\u{20ac}', '\u{1f600}', 'x', '\u{30a2}'];
+                    (0..(24_000 + 1111 * k)).map(|i| chars[(i + k + i / 7) % 5]).collect()
+                };
                 for (name, doc) in [
+                    // longer than libyaml's 16 KiB input buffer, multi-byte characters at every alignment
+                    ("multibyte_map", Val::Map(vec![(Val::s("k"), Val::Str(multibyte(0))), (Val::s("l"), Val::Seq(vec![Val::Str(multibyte(1))]))])),
+                    ("multibyte_seq", Val::Map(vec![(Val::s("root"), Val::Seq(vec![Val::Str(multibyte(2)), Val::Str(multibyte(3)), Val::Int(1)]))])),
+                    ("multibyte_keys", Val::Map((0..6).map(|k| (Val::Str(multibyte(k).chars().take(3000 + 7 * k).collect::<String>()), Val::Str(multibyte(k + 1)))).collect())),
                     ("large_1.5MiB", Val::Map(vec![(Val::s("k"), Val::Str("v".repeat(1_500_000)))])),
                     ("large_2.2MiB", Val::Map(vec![(Val::s("k"), Val::Str("v".repeat(2_200_000)))])),
                     ("c1_controls", Val::Map(vec![(Val::s("a"), Val::s("x\u{80}y\u{9f}z")), (Val::s("b\u{fffe}"), Val::s("\u{ffff}"))])),
